@@ -29,9 +29,18 @@ ONE = _untemper(0xffffffff)
 MAXC = 624
 
 
+_wcache = {}
+_acache = {}
+
+
 def _words(coins, filler):
-    assert len(coins) <= MAXC
-    w = [ONE if c else 0 for c in coins] + [ONE if filler else 0] * (MAXC - len(coins))
+    k = (tuple(coins), filler)
+    w = _wcache.get(k)
+    if w is None:
+        assert len(coins) <= MAXC
+        w = [ONE if c else 0 for c in coins] + [ONE if filler else 0] * (MAXC - len(coins))
+        if len(_wcache) < 4096:
+            _wcache[k] = w
     return w
 
 
@@ -41,7 +50,14 @@ def script(coins_numba=(), coins_numpy=(), filler=1):
     if _ptr is None:
         refresh()
     H.rnd_set_state(_ptr, (0, _words(coins_numba, filler)))
-    np.random.set_state(('MT19937', np.array(_words(coins_numpy, filler), dtype=np.uint32), 0))
+    if coins_numpy is not None:
+        k = (tuple(coins_numpy), filler)
+        a = _acache.get(k)
+        if a is None:
+            a = np.array(_words(coins_numpy, filler), dtype=np.uint32)
+            if len(_acache) < 4096:
+                _acache[k] = a
+        np.random.set_state(('MT19937', a, 0))
 
 
 def consumed():
